@@ -14,4 +14,5 @@ func genAll() {
 	genDerefs()
 	genListeners()
 	genBeaconNode()
+	genDKGRun()
 }
